@@ -38,10 +38,10 @@ func (s Shape) Sizes() string { return fmt.Sprintf("p%db%d", s.Parts, s.MaxBatch
 // (error events of sequenced messages vs the sequenced messages unresolved at that moment).
 func Classify(res *Result) Shape {
 	var s Shape
-	parts := map[int32]bool{}
+	parts := map[string]bool{}
 	for _, r := range res.Requests {
 		for _, b := range r.Batches {
-			parts[b.Partition] = true
+			parts[tpKey(b.Topic, b.Partition)] = true
 			if len(b.IDs) > s.MaxBatch {
 				s.MaxBatch = len(b.IDs)
 			}
@@ -94,23 +94,131 @@ func Classify(res *Result) Shape {
 	return s
 }
 
+// triggers are the moments from which a history is outside the class of c05_no_duplicate_partial's clean
+// histories: positions in the hook-event order (bump, unsequenced) or a request index (connection failure).
+type triggers struct {
+	connReq  int         // index of the first request hit by a connection-level failure (-1 none)
+	bumpPos  int         // event position of the first error event of a sequenced message while another was unresolved (-1 none)
+	unseqPos int         // event position of the first first-pass message forwarded without a sequence number (-1 none)
+	reqPos   map[int]int // request index -> event position of its bridge.send (absent: unknown = end of run)
+	end      int
+}
+
+func findTriggers(res *Result) triggers {
+	t := triggers{connReq: -1, bumpPos: -1, unseqPos: -1, reqPos: map[int]int{}, end: 1 << 30}
+	for _, r := range res.Requests {
+		if (r.Fault == "drop-before" || r.Fault == "lose-ack") && len(r.Batches) > 0 && t.connReq < 0 {
+			t.connReq = r.Index
+		}
+	}
+	// j-th request served by broker b <-> j-th bridge.send of a broker worker of b
+	sends := map[int32][]int{}
+	for _, e := range res.Events {
+		if e.Kind == "bridge.send" {
+			sends[e.Leader] = append(sends[e.Leader], e.Seq)
+		}
+	}
+	seen := map[int32]int{}
+	for _, r := range res.Requests {
+		j := seen[r.Broker]
+		seen[r.Broker]++
+		if j < len(sends[r.Broker]) {
+			t.reqPos[r.Index] = sends[r.Broker][j]
+		}
+	}
+	live := map[int64]bool{}
+	evs := res.Events
+	for i, e := range evs {
+		if e.Msg == nil || e.Msg.ID < 0 {
+			continue
+		}
+		switch e.Kind {
+		case "pp.send":
+			if e.Msg.Retries == 0 && e.Msg.Flags == 0 && e.Msg.HasSeq {
+				live[e.Msg.ID] = true
+			}
+			if e.Msg.Retries == 0 && e.Msg.Flags == 0 && !e.Msg.HasSeq && t.unseqPos < 0 {
+				t.unseqPos = e.Seq
+			}
+		case "return.success":
+			delete(live, e.Msg.ID)
+		case "return.error":
+			delete(live, e.Msg.ID)
+			if !e.Msg.HasSeq || t.bumpPos >= 0 {
+				continue
+			}
+			same := map[int64]bool{}
+			for j := i + 1; j < len(evs); j++ {
+				if evs[j].Goid != e.Goid {
+					continue
+				}
+				if evs[j].Kind == "return.error" && evs[j].Msg != nil {
+					same[evs[j].Msg.ID] = true
+					continue
+				}
+				break
+			}
+			for id := range live {
+				if !same[id] {
+					t.bumpPos = e.Seq
+				}
+			}
+		}
+	}
+	return t
+}
+
+// shapeAt is the history class in effect when request req was handed to its bridge (req < 0: at the end of the run).
+func (t triggers) shapeAt(req int, sizes Shape) Shape {
+	pos := t.end
+	if p, ok := t.reqPos[req]; ok && req >= 0 {
+		pos = p
+	}
+	s := Shape{Parts: sizes.Parts, MaxBatch: sizes.MaxBatch}
+	s.ConnDrop = t.connReq >= 0 && (req < 0 || t.connReq < req)
+	s.EpochBump = t.bumpPos >= 0 && t.bumpPos < pos
+	s.Unsequenced = t.unseqPos >= 0 && t.unseqPos < pos
+	return s
+}
+
 // Monitor evaluates the C05 statement directly on what the simulated cluster received and appended and on the
 // terminal events: no id appended twice, every success in the log exactly once (at the reported offset),
-// batches of a partition contiguous within an epoch, a resent batch identical to the original.
+// batches of a partition contiguous within an epoch, a resent batch identical to the original. Every failure is
+// attributed to the request that exhibits it and classified by the history class in effect when that request
+// was sent (so a failure that precedes the first connection failure / epoch bump / unsequenced message of its run
+// is reported as in-class).
 func Monitor(res *Result) []Finding {
-	shape := Classify(res)
+	sizes := Classify(res)
+	trig := findTriggers(res)
 	var out []Finding
 	seen := map[string]bool{}
-	add := func(kind, what string) {
+	add := func(req int, kind, what string) {
+		shape := trig.shapeAt(req, sizes)
 		sig := "c05:" + shape.Name() + ":" + kind + ":" + shape.Sizes()
 		if !seen[sig] {
 			seen[sig] = true
 			out = append(out, Finding{sig, what})
 		}
 	}
+	// the last request that carried a message
+	lastReq := map[int64]int{}
+	for _, r := range res.Requests {
+		for _, b := range r.Batches {
+			for _, id := range b.IDs {
+				lastReq[id] = r.Index
+			}
+		}
+	}
+	reqOf := func(id int64) int {
+		if r, ok := lastReq[id]; ok {
+			return r
+		}
+		return -1
+	}
 	// 1. no message appended twice; no internal marker in a log
 	count := map[int64]int{}
 	where := map[int64][]string{}
+	second := map[int64]int{}
 	var keys []string
 	for k := range res.Logs {
 		keys = append(keys, k)
@@ -119,10 +227,13 @@ func Monitor(res *Result) []Finding {
 	for _, k := range keys {
 		for _, a := range res.Logs[k] {
 			if a.ID < 0 {
-				add("marker-in-log", fmt.Sprintf("a record that is not an application message was appended to %s at offset %d (epoch %d, sequence %d)", k, a.Offset, a.Epoch, a.Seq))
+				add(a.Request, "marker-in-log", fmt.Sprintf("a record that is not an application message was appended to %s at offset %d (epoch %d, sequence %d)", k, a.Offset, a.Epoch, a.Seq))
 				continue
 			}
 			count[a.ID]++
+			if count[a.ID] == 1 || a.Request > second[a.ID] {
+				second[a.ID] = a.Request
+			}
 			where[a.ID] = append(where[a.ID], fmt.Sprintf("%s@%d(e%d,s%d,req%d)", k, a.Offset, a.Epoch, a.Seq, a.Request))
 		}
 	}
@@ -133,7 +244,7 @@ func Monitor(res *Result) []Finding {
 	sort.Slice(ids, func(i, j int) bool { return ids[i] < ids[j] })
 	for _, id := range ids {
 		if count[id] > 1 {
-			add("duplicate", fmt.Sprintf("message %d was appended %d times: %v", id, count[id], where[id]))
+			add(second[id], "duplicate", fmt.Sprintf("message %d was appended %d times: %v", id, count[id], where[id]))
 		}
 	}
 	// 2. every success is in the log exactly once, at the offset reported
@@ -143,12 +254,19 @@ func Monitor(res *Result) []Finding {
 		}
 		switch count[o.ID] {
 		case 0:
-			add("success-not-in-log", fmt.Sprintf("message %d was reported successful (partition %d, offset %d) but is not in any log", o.ID, o.Partition, o.Offset))
+			add(reqOf(o.ID), "success-not-in-log", fmt.Sprintf("message %d was reported successful (%s/%d, offset %d) but is not in any log", o.ID, o.Topic, o.Partition, o.Offset))
 		case 1:
-			for _, a := range res.Logs[tpKey(Topic, o.Partition)] {
-				if a.ID == o.ID && a.Offset != o.Offset {
-					add("success-wrong-offset", fmt.Sprintf("message %d was reported at offset %d but sits at offset %d of partition %d", o.ID, o.Offset, a.Offset, o.Partition))
+			found := false
+			for _, a := range res.Logs[tpKey(o.Topic, o.Partition)] {
+				if a.ID == o.ID {
+					found = true
+					if a.Offset != o.Offset {
+						add(reqOf(o.ID), "success-wrong-offset", fmt.Sprintf("message %d was reported at offset %d but sits at offset %d of %s/%d", o.ID, o.Offset, a.Offset, o.Topic, o.Partition))
+					}
 				}
+			}
+			if !found {
+				add(reqOf(o.ID), "success-wrong-offset", fmt.Sprintf("message %d was reported for %s/%d but sits in another partition's log: %v", o.ID, o.Topic, o.Partition, where[o.ID]))
 			}
 		}
 	}
@@ -159,7 +277,7 @@ func Monitor(res *Result) []Finding {
 		ids   []int64
 		req   int
 	}
-	hist := map[int32][]sent{}
+	hist := map[string][]sent{}
 	next := map[string]int32{} // partition/epoch -> next expected first sequence
 	same := func(a, b []int64) bool {
 		if len(a) != len(b) {
@@ -177,13 +295,14 @@ func Monitor(res *Result) []Finding {
 			if len(b.IDs) == 0 {
 				continue
 			}
+			pk := tpKey(b.Topic, b.Partition)
 			if !b.IsBatch || b.PID != res.PID {
-				add("wrong-producer-id", fmt.Sprintf("request %d partition %d carries producer id %d (record batch: %v), InitProducerID handed out %d", r.Index, b.Partition, b.PID, b.IsBatch, res.PID))
+				add(r.Index, "wrong-producer-id", fmt.Sprintf("request %d %s carries producer id %d (record batch: %v), InitProducerID handed out %d", r.Index, pk, b.PID, b.IsBatch, res.PID))
 			}
 			cur := sent{b.Epoch, b.First, b.IDs, r.Index}
 			var prev *sent
-			for i := range hist[b.Partition] {
-				h := &hist[b.Partition][i]
+			for i := range hist[pk] {
+				h := &hist[pk][i]
 				for _, x := range h.ids {
 					for _, y := range b.IDs {
 						if x == y && x >= 0 {
@@ -192,22 +311,19 @@ func Monitor(res *Result) []Finding {
 					}
 				}
 			}
+			k := fmt.Sprintf("%s/%d", pk, b.Epoch)
 			if prev != nil {
 				if prev.epoch != cur.epoch || prev.first != cur.first || !same(prev.ids, cur.ids) {
-					add("resend-differs", fmt.Sprintf("partition %d: request %d resends (epoch %d, first %d, ids %v) which request %d sent as (epoch %d, first %d, ids %v)",
-						b.Partition, r.Index, cur.epoch, cur.first, cur.ids, prev.req, prev.epoch, prev.first, prev.ids))
+					add(r.Index, "resend-differs", fmt.Sprintf("%s: request %d resends (epoch %d, first %d, ids %v) which request %d sent as (epoch %d, first %d, ids %v)",
+						pk, r.Index, cur.epoch, cur.first, cur.ids, prev.req, prev.epoch, prev.first, prev.ids))
 				}
-			} else {
-				k := fmt.Sprintf("%d/%d", b.Partition, b.Epoch)
-				if b.First != next[k] {
-					add("noncontiguous", fmt.Sprintf("partition %d epoch %d: request %d starts a new batch at sequence %d, the previous batches end at %d", b.Partition, b.Epoch, r.Index, b.First, next[k]-1))
-				}
+			} else if b.First != next[k] {
+				add(r.Index, "noncontiguous", fmt.Sprintf("%s epoch %d: request %d starts a new batch at sequence %d, the previous batches end at %d", pk, b.Epoch, r.Index, b.First, next[k]-1))
 			}
-			k := fmt.Sprintf("%d/%d", b.Partition, b.Epoch)
 			if l := b.First + int32(len(b.IDs)); l > next[k] {
 				next[k] = l
 			}
-			hist[b.Partition] = append(hist[b.Partition], cur)
+			hist[pk] = append(hist[pk], cur)
 		}
 	}
 	return out
